@@ -7,6 +7,7 @@ git merge "$b" -m "Merge $b" >/dev/null 2>&1
 for f in $(git diff --name-only --diff-filter=U); do
   case "$f" in
     evidence/*|MANIFEST.json) git checkout --ours -- "$f"; git add "$f";;
+    harness/props/*.manifest.json|DESIGN.md) git checkout --theirs -- "$f"; git add "$f"; echo "TOOK THEIRS: $f";;
     lean/Driver/Main.lean)
       python3 - <<'PY'
 import re,subprocess
